@@ -157,7 +157,7 @@ func shapeInputs(tier string) []input {
 func annotationInputs(tier string) []input {
 	lines := []string{
 		"// @Query(a, {name:})", "// @Query(a, {name}", "// @Query(a, {name: \"x\"", "// @Query(a, {name: \"x\"}}", "// @Query(a, {\"name\": [1,2})", "// @Query(, {})",
-		"// @Query()", "// @Query(a,)", "// @Query(a b c)", "// @Security(s1, { scopes: \"notalist\" })", "// @Security(s1, { scopes: [1, 2] })", "// @Security(, { scopes: [] })", "// @Security(s1, { scopes: [null] })", "// @Security(s1, { scopes: null })", "// @Security(s1, { scopes: [\"a\", null] })", "// @Security(s1, { scopes: {} })", "// @Security(s1, null)",
+		"// @Query()", "// @Query(a,)", "// @Query(a b c)", "// @Security(s1, { scopes: \"notalist\" })", "// @Security(s1, { scopes: [1, 2] })", "//", "// ", "//\n//", "//\n// text after an empty first line\n//", "// @Security(, { scopes: [] })", "// @Security(s1, { scopes: [null] })", "// @Security(s1, { scopes: null })", "// @Security(s1, { scopes: [\"a\", null] })", "// @Security(s1, { scopes: {} })", "// @Security(s1, null)",
 		"// @Query(a, { name: null })", "// @Query(a, { validate: null })", "// @Query(a, { name: [\"x\"] })", "// @Query(a, { validate: 5 })", "// @Query(a, { name: {} })", "// @Route(/x, { a: null })", "// @Tag(T, null)",
 		"// @Response(abc)", "// @Response(99999999999999999999)", "// @Response(-1)", "// @ErrorResponse(4xx)", "// @ErrorResponse()", "// @Method()", "// @Method(GET, {x: 1})",
 		"// @Route()", "// @Route({)", "// @Route(/a/{)", "// @Route(/a/{}/b)", "// @Route(/{a}{b})", "// @TemplateContext(X, {a: 1})", "// @TemplateContext(X, {a: 1}) again", "// @Unknown(thing)",
@@ -181,8 +181,14 @@ func annotationInputs(tier string) []input {
 			switch pos {
 			case "method":
 				m.Extra = []string{l}
+				if strings.HasPrefix(l, "//\n") || l == "//" || l == "// " {
+					m.Extra, m.Lead = nil, strings.Split(l, "\n") // comment-only lines open the doc comment
+				}
 			case "controller":
 				ctl.Extra = []string{l}
+				if strings.HasPrefix(l, "//\n") || l == "//" || l == "// " {
+					ctl.Extra, ctl.Lead = nil, strings.Split(l, "\n")
+				}
 			case "field":
 				fieldDoc = "\t" + l + "\n"
 			case "enum-value":
